@@ -425,6 +425,9 @@ class SplitStream(Stream):
         self.corpus.append(self.mk(b"bound", b"--bound--", []))
         self.corpus.append(self.mk(b"bound", b"", []))
         self.corpus.append(self.mk(b"bound", b"no delimiter at all\r\n", [3]))
+        # empty chunks: receive_data(b"") appends nothing and does not end the input
+        self.corpus += [self.mk(*F01A, c) for c in ([0], [len(F01A[1])], [0, 0], [50, 50], [0, 97, 97, len(F01A[1])])]
+        self.corpus += [self.mk(*F01B, [55, 55]), self.mk(b"bound", b"--bound--", [0, 0, 9])]
 
     @staticmethod
     def mk(boundary, body, cuts, wf=True):
@@ -438,16 +441,22 @@ class SplitStream(Stream):
             sel = [fixed[(start + 7 * i) % len(fixed)] for i in range(40)] + [F01A, F01B]
         else:
             sel = fixed + [F01A, F01B]
+        # a zero-length piece is a split too: offsets 0 and len(body) (an empty first / last chunk) and
+        # repeated offsets (an empty chunk in the middle) are part of every schedule family
         for bd, body in sel:
-            for i in range(1, len(body)):
+            for i in range(0, len(body) + 1):
                 yield self.mk(bd, body, [i])
         for bd, body in sel:
             yield self.mk(bd, body, list(range(1, len(body))))  # byte at a time
+        for bd, body in sel[:12]:
+            yield self.mk(bd, body, [i for i in range(0, len(body) + 1) for _ in (0, 1)])  # byte at a time, an empty chunk after every byte
+            for i in rng.sample(range(0, len(body) + 1), min(len(body) + 1, 12)):
+                yield self.mk(bd, body, [i, i])  # 3-way split whose middle piece is empty
         if tier == "thorough":
             for bd, body in fixed:
                 if len(body) < 100:
-                    for i in range(1, len(body)):
-                        for j in range(i + 1, len(body)):
+                    for i in range(0, len(body) + 1):
+                        for j in range(i, len(body) + 1):
                             yield self.mk(bd, body, [i, j])
         # random bodies of the grammar x random k-way splits, all 2-way splits of a few
         n = 3000 if tier == "quick" else 30000
@@ -463,6 +472,9 @@ class SplitStream(Stream):
             elif r < 0.2 and L < 400:
                 for i in rng.sample(range(1, L), min(L - 1, 25)):
                     yield self.mk(bd, body, [i])
+            elif r < 0.45:
+                k = rng.choice([1, 2, 2, 3, 5, 8])
+                yield self.mk(bd, body, sorted(rng.randrange(0, L + 1) for _ in range(k)))  # empty chunks allowed
             else:
                 k = rng.choice([1, 1, 2, 2, 3, 5, 8])
                 yield self.mk(bd, body, sorted(set(rng.randrange(1, L) for _ in range(k))))
@@ -527,8 +539,10 @@ class SplitStream(Stream):
 
     def mutate(self, case, rng):
         body = unhx(case["body"])
-        for i in range(1, len(body)):
+        for i in range(0, len(body) + 1):
             yield {**case, "cuts": [i]}
+        for i in range(0, len(body) + 1):
+            yield {**case, "cuts": [i, i]}
 
 
 class ShortReader:
